@@ -1724,6 +1724,26 @@ def _patch_exec():
     E.id_dict_of = id_dict_of
 
     # ------------------------------------------------------------------ statements
+    def interfere(self, st, node, tag):
+        """Interference point of a monitor-mode function: (guarantee) the monitor invariant holds now; (rely) other threads
+        may then change the shared locations in any way that re-establishes it."""
+        mon = self.c.monitor
+        m = Mode(True, self.st0)
+        rst = st.copy(env=dict(st.env, **{n: self.st0.env[n] for n in self.st0.env if n in ("self",)}))
+        for i, cl in enumerate(mon["inv"]):
+            g = self.truth(self.pev(ast.parse(cl, mode="eval").body, rst, m), rst)
+            self.oblige(st, g, f"monitor.inv[{i}].{tag}", node)
+        st2 = st
+        for d in mon["havoc"]:
+            for nm, obj in self.modset_entry(d, rst, Mode(True)):
+                cur = self.hfield(st2, nm)
+                st2 = self.hset(st2, nm, obj, self.fresh("env", cur.sort().range()))
+        rst2 = st2.copy(env=rst.env)
+        facts = [self.truth(self.pev(ast.parse(cl, mode="eval").body, rst2, m), rst2) for cl in mon["inv"]]
+        self.assumptions.add("monitor reading with interference: at every statement outside a lock, at every lock acquisition and around every call out of the monitor, other threads may change the shared locations arbitrarily subject to the monitor invariant; each such point first proves the invariant (guarantee)")
+        return st2.assume(*facts)
+    E.interfere = interfere
+
     def ex_block(self, stmts, st, ctx):
         if not stmts:
             return ctx.k(st)
@@ -1738,6 +1758,26 @@ def _patch_exec():
             raise OutOfSubset(f"statement {type(s).__name__} at L{self.rel_line(s)}")
         if len(st.pc) > 400:
             raise OutOfSubset("path condition too long")
+        if self.c.monitor and not st.ghost.get("$lockdepth") and not isinstance(s, (ast.Expr,)) or (self.c.monitor and not st.ghost.get("$lockdepth") and isinstance(s, ast.Expr) and not isinstance(s.value, ast.Constant)):
+            st = self.interfere(st, s, "before-stmt")
+        gh = self.c.ghost_after.get(ast.unparse(s)) if self.c.ghost_after else None
+        if gh:
+            k0 = ctx.k
+            def after(st2, gh=gh, k0=k0):
+                stmts = [ast.parse(g).body[0] for g in gh]
+                for g in stmts:
+                    ast.copy_location(g, s)
+                    ast.fix_missing_locations(g)
+                saved = self.c.ghost_after
+                self.c.ghost_after = {}
+                mon = self.c.monitor
+                self.c.monitor = None
+                try:
+                    self.ex_block(stmts, st2, ctx.with_(k=k0))
+                finally:
+                    self.c.ghost_after = saved
+                    self.c.monitor = mon
+            ctx = ctx.with_(k=after)
         meth(s, st, ctx)
     E.ex_stmt = ex_stmt
 
@@ -1962,6 +2002,13 @@ def _patch_exec():
             if not (txt.endswith("lock") or txt.endswith("mutex") or txt.endswith("_lock") or txt.endswith(".not_full") or txt.endswith(".not_empty")
                     or txt in self.c.callees and self.c.callees[txt] == "noop_cm"):
                 raise OutOfSubset(f"with {txt}")
+        if self.c.monitor and any(ast.unparse(i.context_expr) in self.c.monitor.get("locks", []) for i in s.items):
+            st = self.interfere(st, s, "lock-acquire")
+            depth = st.ghost.get("$lockdepth", 0)
+            inner = st.copy(ghost=dict(st.ghost, **{"$lockdepth": depth + 1}))
+            def leave(f):
+                return (lambda *a: f(*[x.copy(ghost=dict(x.ghost, **{"$lockdepth": depth})) if isinstance(x, St) else x for x in a])) if f else None
+            return self.ex_block(s.body, inner, Ctx(leave(ctx.k), leave(ctx.ret), leave(ctx.exc), leave(ctx.brk), leave(ctx.cont)))
         self.assumptions.add("`with <lock>:` is a no-op sequentially; schedules are not explored (DESIGN §2.6)")
         self.ex_block(s.body, st, ctx)
     E.ex_With = ex_With
@@ -3047,6 +3094,8 @@ def _patch_calls():
             label = fnc.qualname
         snap_state = post.copy(env=dict(post.env, **{"$result": res}))
         post = post.copy(ghost=dict(post.ghost, **{"$after:" + label: snap_state}))
+        if self.c.monitor and label in self.c.monitor.get("calls", []) and not post.ghost.get("$lockdepth"):
+            post = self.interfere(post, node, "after-call")
         k(res, post)
     E.do_contract_call = do_contract_call
 
